@@ -305,199 +305,211 @@ def run(ck, repo: Repo, tier: str):
     idn = Ident(repo)
     g = res.call_graph()
 
-    # ---------------- R1 / R4 -----------------------------------------------------------------------------
-    n_sites = 0
-    returned = {}  # function qual -> (site, param the gradient is w.r.t.)
-    pending = []
-    for qual, fn, mi in repo.all_functions():
-        if "<locals>" in qual:
-            continue  # nested defs are scanned with their parent (ast.walk)
-        for site in grad_sites(repo, fn, mi):
-            n_sites += 1
-            stmt = _stmt_of(site["app"])
-            where = loc(mi, site["app"])
-            kind, names = _grad_targets(site, stmt)
-            if kind is None:
-                raise AnalysisError(f"{qual}: gradient application `{short(site['app'], 60)}` is consumed in an unrecognised way")
-            if any(d is None for d in site["diff"]):
-                raise AnalysisError(f"{qual}: differentiated argument of `{short(site['app'], 60)}` cannot be located (starred arguments)")
-            if kind == "return":
-                pp = positional_params(fn)
-                d = site["diff"][0]
-                ck.need(isinstance(d, ast.Name) and d.id in pp, f"{qual}: returned gradient w.r.t. a non-parameter (unrecognised idiom)")
-                returned[qual] = (site, d.id)
-                continue
-            for gname, d in zip(names, site["diff"]):
-                ups = _updates_using(res, fn, gname, stmt)
-                ck.ob("R4-does-update", qual, f"consumed:{short(d, 30)}", bool(ups), f"gradient `{gname}` of `{short(site['loss'], 40)}` w.r.t. `{short(d, 30)}`",
-                      "" if ups else "the gradient is computed but never applied: the trained component does not change", where)
-                for u in ups:
-                    ok = _same_obj(res, fn, u.args[0], u, d, site["app"])
-                    ck.ob("R1-grad-update-pairing", qual, f"{short(d, 30)}<-{short(site['loss'], 40)}", ok,
-                          f"grad wrt `{short(d, 40)}` (argnums={site['argnums']}) applied by `{short(u, 70)}`",
-                          "" if ok else f"the gradient was taken with respect to `{short(d, 40)}` but is applied to `{short(u.args[0], 40)}`: a different component is changed", loc(mi, u))
-                    # R4: update is not under a condition of its own (same control dependence as the gradient computation)
-                    try:
-                        cfg = res.cfg_of(fn) if not _in_nested(u, fn) else None
-                    except Exception:
-                        cfg = None
-                    if cfg is not None:
-                        try:
-                            a, b = cfg.node_of(site["app"]).id, cfg.node_of(u).id
-                            same = cfg.control_deps(a) == cfg.control_deps(b)
-                            ck.ob("R4-does-update", qual, f"unconditional:{short(d, 30)}", same, f"`{short(u, 60)}` follows its gradient on every path",
-                                  "" if same else "the update is skipped on some path after the gradient was computed", loc(mi, u))
-                        except KeyError:
-                            pass
-    ck.floor("grad-sites", n_sites, 16)
-    # gradients returned to callers
-    for fq, (site, pname) in sorted(returned.items()):
-        callers = [c for c in g.predecessors(fq)] if fq in g else []
-        found = 0
-        for cq in sorted(callers):
-            try:
-                cfn = repo.func(cq)
-            except Exception:
-                continue
-            cmi = cfn._module
-            fdef = repo.func(fq)
-            for n in ast.walk(cfn):
-                if isinstance(n, ast.Assign) and isinstance(n.value, ast.Call) and isinstance(n.value.func, ast.Name) and repo.resolve_name(cmi, n.value.func.id) == fq:
-                    t = n.targets[0]
-                    if not (isinstance(t, ast.Tuple) and len(t.elts) == 2 and isinstance(t.elts[1], ast.Name)):
-                        raise AnalysisError(f"{cq}: result of {fq} unpacked in an unrecognised way")
-                    b = bind_call(fdef, n.value)
-                    d = b.get(pname)
-                    gname = t.elts[1].id
-                    ups = _updates_using(res, cfn, gname, n)
-                    found += 1
-                    ck.ob("R4-does-update", cq, f"consumed:{short(d, 30)}", bool(ups), f"gradient `{gname}` returned by {fq.rsplit('.', 1)[1]}", "" if ups else "gradient never applied", loc(cmi, n))
+    def _section_1():
+        # ---------------- R1 / R4 -----------------------------------------------------------------------------
+        n_sites = 0
+        returned = {}  # function qual -> (site, param the gradient is w.r.t.)
+        pending = []
+        for qual, fn, mi in repo.all_functions():
+            if "<locals>" in qual:
+                continue  # nested defs are scanned with their parent (ast.walk)
+            for site in grad_sites(repo, fn, mi):
+                n_sites += 1
+                stmt = _stmt_of(site["app"])
+                where = loc(mi, site["app"])
+                kind, names = _grad_targets(site, stmt)
+                if kind is None:
+                    raise AnalysisError(f"{qual}: gradient application `{short(site['app'], 60)}` is consumed in an unrecognised way")
+                if any(d is None for d in site["diff"]):
+                    raise AnalysisError(f"{qual}: differentiated argument of `{short(site['app'], 60)}` cannot be located (starred arguments)")
+                if kind == "return":
+                    pp = positional_params(fn)
+                    d = site["diff"][0]
+                    ck.need(isinstance(d, ast.Name) and d.id in pp, f"{qual}: returned gradient w.r.t. a non-parameter (unrecognised idiom)")
+                    returned[qual] = (site, d.id)
+                    continue
+                for gname, d in zip(names, site["diff"]):
+                    ups = _updates_using(res, fn, gname, stmt)
+                    ck.ob("R4-does-update", qual, f"consumed:{short(d, 30)}", bool(ups), f"gradient `{gname}` of `{short(site['loss'], 40)}` w.r.t. `{short(d, 30)}`",
+                          "" if ups else "the gradient is computed but never applied: the trained component does not change", where)
                     for u in ups:
-                        ok = d is not None and _same_obj(res, cfn, u.args[0], u, d, n)
-                        ck.ob("R1-grad-update-pairing", cq, f"{short(d, 30)}<-{fq.rsplit('.', 1)[1]}", ok,
-                              f"{fq.rsplit('.', 1)[1]} differentiates its `{pname}` = `{short(d, 30)}`; applied by `{short(u, 60)}`",
-                              "" if ok else f"gradient w.r.t. `{short(d, 30)}` applied to `{short(u.args[0], 30)}`", loc(cmi, u))
-        ck.need(found > 0, f"{fq}: returns a gradient but no caller consumes it (anchor vanished)")
+                        ok = _same_obj(res, fn, u.args[0], u, d, site["app"])
+                        ck.ob("R1-grad-update-pairing", qual, f"{short(d, 30)}<-{short(site['loss'], 40)}", ok,
+                              f"grad wrt `{short(d, 40)}` (argnums={site['argnums']}) applied by `{short(u, 70)}`",
+                              "" if ok else f"the gradient was taken with respect to `{short(d, 40)}` but is applied to `{short(u.args[0], 40)}`: a different component is changed", loc(mi, u))
+                        # R4: update is not under a condition of its own (same control dependence as the gradient computation)
+                        try:
+                            cfg = res.cfg_of(fn) if not _in_nested(u, fn) else None
+                        except Exception:
+                            cfg = None
+                        if cfg is not None:
+                            try:
+                                a, b = cfg.node_of(site["app"]).id, cfg.node_of(u).id
+                                same = cfg.control_deps(a) == cfg.control_deps(b)
+                                ck.ob("R4-does-update", qual, f"unconditional:{short(d, 30)}", same, f"`{short(u, 60)}` follows its gradient on every path",
+                                      "" if same else "the update is skipped on some path after the gradient was computed", loc(mi, u))
+                            except KeyError:
+                                pass
+        ck.floor("grad-sites", n_sites, 16)
+        # gradients returned to callers
+        for fq, (site, pname) in sorted(returned.items()):
+            callers = [c for c in g.predecessors(fq)] if fq in g else []
+            found = 0
+            for cq in sorted(callers):
+                try:
+                    cfn = repo.func(cq)
+                except Exception:
+                    continue
+                cmi = cfn._module
+                fdef = repo.func(fq)
+                for n in ast.walk(cfn):
+                    if isinstance(n, ast.Assign) and isinstance(n.value, ast.Call) and isinstance(n.value.func, ast.Name) and repo.resolve_name(cmi, n.value.func.id) == fq:
+                        t = n.targets[0]
+                        if not (isinstance(t, ast.Tuple) and len(t.elts) == 2 and isinstance(t.elts[1], ast.Name)):
+                            raise AnalysisError(f"{cq}: result of {fq} unpacked in an unrecognised way")
+                        b = bind_call(fdef, n.value)
+                        d = b.get(pname)
+                        gname = t.elts[1].id
+                        ups = _updates_using(res, cfn, gname, n)
+                        found += 1
+                        ck.ob("R4-does-update", cq, f"consumed:{short(d, 30)}", bool(ups), f"gradient `{gname}` returned by {fq.rsplit('.', 1)[1]}", "" if ups else "gradient never applied", loc(cmi, n))
+                        for u in ups:
+                            ok = d is not None and _same_obj(res, cfn, u.args[0], u, d, n)
+                            ck.ob("R1-grad-update-pairing", cq, f"{short(d, 30)}<-{fq.rsplit('.', 1)[1]}", ok,
+                                  f"{fq.rsplit('.', 1)[1]} differentiates its `{pname}` = `{short(d, 30)}`; applied by `{short(u, 60)}`",
+                                  "" if ok else f"gradient w.r.t. `{short(d, 30)}` applied to `{short(u.args[0], 30)}`", loc(cmi, u))
+            ck.need(found > 0, f"{fq}: returns a gradient but no caller consumes it (anchor vanished)")
+    ck.guard(_section_1)
 
-    # ---------------- R2 effect sets ---------------------------------------------------------------------------
-    ck.floor("update-routines", len(TRAINEES), 15)
-    for q, want0 in sorted(TRAINEES.items()):
-        fn = repo.func(q)
-        mi = fn._module
-        # the documented trainee is a *position* of the routine's signature (frozen below); its current name is looked up, so that
-        # renaming a parameter does not change the rule
-        pp_ = positional_params(fn)
-        want = {(pp_[i], a) for i, a in TRAINEE_POS[q] if i < len(pp_)}
-        if len(want) != len(TRAINEE_POS[q]):
-            raise AnalysisError(f"{q}: signature has fewer parameters than when the trainee set was recorded (anchor vanished)")
-        got = eff.summary(q)
-        opts = {op for k, c, p, op in eff.sites.get(q, []) if op is not None}
-        # optimizer paths reached through callees
-        mods = {p for p in got if p not in opts and not _looks_optimizer(p, fn)}
-        extra = mods - want
-        missing = want - mods
-        ok = not extra and not missing
-        why = ""
-        if extra:
-            why = f"also writes {sorted(_p(x) for x in extra)}: a component it is not documented to train is changed"
-        elif missing:
-            why = f"does not write its documented trainee {sorted(_p(x) for x in missing)}"
-        ck.ob("R2-effects", q, "effect-set", ok, f"writes {sorted(_p(x) for x in mods)} (optimizers {sorted(_p(x) for x in got - mods)})", why, loc(mi, fn))
-    # a gradient-updating function that is not in the table
-    transparent = repo.transparent_helpers()
-    for qual, fn, mi in repo.all_functions():
-        if "<locals>" in qual or qual in TRAINEES or qual in transparent:
-            continue
-        direct = [s for s in (eff.summary(qual) and eff.sites.get(qual, [])) if s[0] == "optimizer.update"]
-        if direct:
-            ck.ob("R2-effects", qual, "unregistered-update-routine", False, f"`{short(direct[0][1], 60)}`", "function applies an optimizer update but has no documented trainee set", loc(mi, direct[0][1]))
-
-    # ---------------- R2 call-site optimizer/module pairs ----------------------------------------------------------
-    n_pairs = 0
-    for tq, cq in sorted(PAIR_SOURCES.items()):
-        tfn = repo.func(tq)
-        tmi = tfn._module
-        cfg = res.cfg_of(tfn)
-        pairs = dict(DOCUMENTED_PAIRS.get(tq, {}))
-        if cq:
-            pairs.update(_created_pairs(repo, cq))
-            ck.need(pairs, f"{cq}: no nnx.Optimizer(...) found (anchor vanished)")
-        for node in cfg.nodes:
-            if node.ast is None or node.kind != "stmt":
+    def _section_2():
+        # ---------------- R2 effect sets ---------------------------------------------------------------------------
+        ck.floor("update-routines", len(TRAINEES), 15)
+        for q, want0 in sorted(TRAINEES.items()):
+            fn = repo.func(q)
+            mi = fn._module
+            # the documented trainee is a *position* of the routine's signature (frozen below); its current name is looked up, so that
+            # renaming a parameter does not change the rule
+            pp_ = positional_params(fn)
+            want = {(pp_[i], a) for i, a in TRAINEE_POS[q] if i < len(pp_)}
+            if len(want) != len(TRAINEE_POS[q]):
+                raise AnalysisError(f"{q}: signature has fewer parameters than when the trainee set was recorded (anchor vanished)")
+            got = eff.summary(q)
+            opts = {op for k, c, p, op in eff.sites.get(q, []) if op is not None}
+            # optimizer paths reached through callees
+            mods = {p for p in got if p not in opts and not _looks_optimizer(p, fn)}
+            extra = mods - want
+            missing = want - mods
+            ok = not extra and not missing
+            why = ""
+            if extra:
+                why = f"also writes {sorted(_p(x) for x in extra)}: a component it is not documented to train is changed"
+            elif missing:
+                why = f"does not write its documented trainee {sorted(_p(x) for x in missing)}"
+            ck.ob("R2-effects", q, "effect-set", ok, f"writes {sorted(_p(x) for x in mods)} (optimizers {sorted(_p(x) for x in got - mods)})", why, loc(mi, fn))
+    ck.guard(_section_2)
+    def _section_3():
+        # a gradient-updating function that is not in the table
+        transparent = repo.transparent_helpers()
+        for qual, fn, mi in repo.all_functions():
+            if "<locals>" in qual or qual in TRAINEES or qual in transparent:
                 continue
-            for c in ast.walk(node.ast):
-                if not isinstance(c, ast.Call):
-                    continue
-                for (opt_e, mod_e, ctx_q, ctx_fn, ctx_cfg, ctx_node, callee) in _opt_mod_at_call(repo, res, eff, tq, tfn, cfg, node.id, c):
-                    op = expr_path(opt_e)
-                    if op is None:
-                        continue
-                    oname = op[1][-1] if op[1] else op[0]
-                    if oname not in pairs:
-                        continue
-                    n_pairs += 1
-                    want_mod = pairs[oname]
-                    got_id = idn.of(mod_e, ctx_fn._module, ctx_cfg, ctx_node, ctx_q)
-                    want_e = _path_expr(want_mod, tfn, pairs, oname)
-                    want_id = idn.of(want_e, tmi, cfg, node.id, tq)
-                    ok = got_id == want_id
-                    ck.ob("R2-effects", tq, f"pair:{oname}@{callee.rsplit('.', 1)[1]}", ok, f"`{short(c, 50)}`: {oname} updates {show(got_id)}",
-                          "" if ok else f"`{oname}` was created for `{_p(want_mod)}` but is used to update {show(got_id)}: optimizer state and parameters of different components are mixed",
-                          loc(tmi, c))
-    ck.floor("optimizer-module-pairs", n_pairs, 20)
+            direct = [s for s in (eff.summary(qual) and eff.sites.get(qual, [])) if s[0] == "optimizer.update"]
+            if direct:
+                ck.ob("R2-effects", qual, "unregistered-update-routine", False, f"`{short(direct[0][1], 60)}`", "function applies an optimizer update but has no documented trainee set", loc(mi, direct[0][1]))
+    ck.guard(_section_3)
 
-    # ---------------- R5 returned components are distinct objects ---------------------------------------------------
-    n_res = 0
-    for qual, fn, mi in repo.all_functions():
-        if "<locals>" in qual or not fn.name.startswith("train_"):
-            continue
-        for n in ast.walk(fn):
-            if isinstance(n, ast.Return) and isinstance(n.value, ast.Call) and isinstance(n.value.func, ast.Call) and dotted(n.value.func.func) == "namedtuple":
-                nt = n.value.func
-                if not (len(nt.args) == 2 and isinstance(nt.args[1], (ast.List, ast.Tuple))):
+    def _section_4():
+        # ---------------- R2 call-site optimizer/module pairs ----------------------------------------------------------
+        n_pairs = 0
+        for tq, cq in sorted(PAIR_SOURCES.items()):
+            tfn = repo.func(tq)
+            tmi = tfn._module
+            cfg = res.cfg_of(tfn)
+            pairs = dict(DOCUMENTED_PAIRS.get(tq, {}))
+            if cq:
+                pairs.update(_created_pairs(repo, cq))
+                ck.need(pairs, f"{cq}: no nnx.Optimizer(...) found (anchor vanished)")
+            for node in cfg.nodes:
+                if node.ast is None or node.kind != "stmt":
                     continue
-                fields = [e.value for e in nt.args[1].elts if isinstance(e, ast.Constant)]
-                cfg = res.cfg_of(fn)
-                at = cfg.node_of(n).id
-                seen = {}
-                n_res += 1
-                for fld, val in zip(fields, n.value.args):
-                    alts = [val.body, val.orelse] if isinstance(val, ast.IfExp) else [val]
-                    for a in alts:
-                        if expr_path(a) is None:
+                for c in ast.walk(node.ast):
+                    if not isinstance(c, ast.Call):
+                        continue
+                    for (opt_e, mod_e, ctx_q, ctx_fn, ctx_cfg, ctx_node, callee) in _opt_mod_at_call(repo, res, eff, tq, tfn, cfg, node.id, c):
+                        op = expr_path(opt_e)
+                        if op is None:
                             continue
-                        ident = idn.of(a, mi, cfg, at, qual)
-                        if ident[0] in ("global", "expr", "value", "call", "aug", "for", "unpack", "phi"):
-                            continue  # counters, buffers built elsewhere: not module identities
-                        for leaf in idn.leaves(ident, mi, cfg, qual):
-                            for other_leaf, other_fld in list(seen.items()):
-                                if other_fld != fld and (has_base(leaf, other_leaf) or has_base(other_leaf, leaf)):
-                                    ck.ob("R5-distinct-components", qual, f"{min(fld, other_fld)}~{max(fld, other_fld)}", False, f"result fields `{fld}` and `{other_fld}`",
-                                          f"both denote {show(leaf)}: the two components share storage, so updating one changes the other", loc(mi, n))
-                            seen.setdefault(leaf, fld)
-                ck.ob("R5-distinct-components", qual, "result-tuple", True, f"{len(fields)} fields, {len(seen)} distinct module identities", "", loc(mi, n))
-    ck.floor("result-tuples", n_res, 10)
+                        oname = op[1][-1] if op[1] else op[0]
+                        if oname not in pairs:
+                            continue
+                        n_pairs += 1
+                        want_mod = pairs[oname]
+                        got_id = idn.of(mod_e, ctx_fn._module, ctx_cfg, ctx_node, ctx_q)
+                        want_e = _path_expr(want_mod, tfn, pairs, oname)
+                        want_id = idn.of(want_e, tmi, cfg, node.id, tq)
+                        ok = got_id == want_id
+                        ck.ob("R2-effects", tq, f"pair:{oname}@{callee.rsplit('.', 1)[1]}", ok, f"`{short(c, 50)}`: {oname} updates {show(got_id)}",
+                              "" if ok else f"`{oname}` was created for `{_p(want_mod)}` but is used to update {show(got_id)}: optimizer state and parameters of different components are mixed",
+                              loc(tmi, c))
+        ck.floor("optimizer-module-pairs", n_pairs, 20)
+    ck.guard(_section_4)
 
-    # ---------------- R3 effect-free evaluation -------------------------------------------------------------------
-    n_free = 0
-    targets = list(EFFECT_FREE_FUNCS)
-    for m in EFFECT_FREE_MODULES:
-        mi = repo.module(m)
-        for qual, fn, mi2 in repo._walk_funcs(mi, mi.tree, mi.name):
-            if "<locals>" not in qual and not fn.name.startswith("__init__"):
-                targets.append(qual)
-    for q in sorted(set(targets)):
-        fn = repo.func(q)
-        got = eff.summary(q)
-        n_free += 1
-        ck.ob("R3-effect-free", q, "no-module-write", not got, f"effect set {sorted(_p(x) for x in got)}", "" if not got else f"evaluating / acting writes {sorted(_p(x) for x in got)}", loc(fn._module, fn))
-        # raw parameter stores `x.value = ...` / `x[...] = ...` on module attributes
-        for n in ast.walk(fn):
-            if isinstance(n, (ast.Assign, ast.AugAssign)):
-                tg = n.targets[0] if isinstance(n, ast.Assign) else n.target
-                if isinstance(tg, ast.Attribute) and tg.attr == "value":
-                    ck.ob("R3-effect-free", q, "raw-value-store", False, short(n, 60), "direct store into a parameter's .value", loc(fn._module, n))
-    ck.floor("effect-free-functions", n_free, 40)
+    def _section_5():
+        # ---------------- R5 returned components are distinct objects ---------------------------------------------------
+        n_res = 0
+        for qual, fn, mi in repo.all_functions():
+            if "<locals>" in qual or not fn.name.startswith("train_"):
+                continue
+            for n in ast.walk(fn):
+                if isinstance(n, ast.Return) and isinstance(n.value, ast.Call) and isinstance(n.value.func, ast.Call) and dotted(n.value.func.func) == "namedtuple":
+                    nt = n.value.func
+                    if not (len(nt.args) == 2 and isinstance(nt.args[1], (ast.List, ast.Tuple))):
+                        continue
+                    fields = [e.value for e in nt.args[1].elts if isinstance(e, ast.Constant)]
+                    cfg = res.cfg_of(fn)
+                    at = cfg.node_of(n).id
+                    seen = {}
+                    n_res += 1
+                    for fld, val in zip(fields, n.value.args):
+                        alts = [val.body, val.orelse] if isinstance(val, ast.IfExp) else [val]
+                        for a in alts:
+                            if expr_path(a) is None:
+                                continue
+                            ident = idn.of(a, mi, cfg, at, qual)
+                            if ident[0] in ("global", "expr", "value", "call", "aug", "for", "unpack", "phi"):
+                                continue  # counters, buffers built elsewhere: not module identities
+                            for leaf in idn.leaves(ident, mi, cfg, qual):
+                                for other_leaf, other_fld in list(seen.items()):
+                                    if other_fld != fld and (has_base(leaf, other_leaf) or has_base(other_leaf, leaf)):
+                                        ck.ob("R5-distinct-components", qual, f"{min(fld, other_fld)}~{max(fld, other_fld)}", False, f"result fields `{fld}` and `{other_fld}`",
+                                              f"both denote {show(leaf)}: the two components share storage, so updating one changes the other", loc(mi, n))
+                                seen.setdefault(leaf, fld)
+                    ck.ob("R5-distinct-components", qual, "result-tuple", True, f"{len(fields)} fields, {len(seen)} distinct module identities", "", loc(mi, n))
+        ck.floor("result-tuples", n_res, 10)
+    ck.guard(_section_5)
+
+    def _section_6():
+        # ---------------- R3 effect-free evaluation -------------------------------------------------------------------
+        n_free = 0
+        targets = list(EFFECT_FREE_FUNCS)
+        for m in EFFECT_FREE_MODULES:
+            mi = repo.module(m)
+            for qual, fn, mi2 in repo._walk_funcs(mi, mi.tree, mi.name):
+                if "<locals>" not in qual and not fn.name.startswith("__init__"):
+                    targets.append(qual)
+        for q in sorted(set(targets)):
+            fn = repo.func(q)
+            got = eff.summary(q)
+            n_free += 1
+            ck.ob("R3-effect-free", q, "no-module-write", not got, f"effect set {sorted(_p(x) for x in got)}", "" if not got else f"evaluating / acting writes {sorted(_p(x) for x in got)}", loc(fn._module, fn))
+            # raw parameter stores `x.value = ...` / `x[...] = ...` on module attributes
+            for n in ast.walk(fn):
+                if isinstance(n, (ast.Assign, ast.AugAssign)):
+                    tg = n.targets[0] if isinstance(n, ast.Assign) else n.target
+                    if isinstance(tg, ast.Attribute) and tg.attr == "value":
+                        ck.ob("R3-effect-free", q, "raw-value-store", False, short(n, 60), "direct store into a parameter's .value", loc(fn._module, n))
+        ck.floor("effect-free-functions", n_free, 40)
+    ck.guard(_section_6)
 
 
 def _in_nested(node, fn):
